@@ -23,6 +23,7 @@ from concurrent.futures import ThreadPoolExecutor
 
 import vf
 import c13_zone
+import x13fe
 
 MOD = "FailureCache"
 MCSPEC = "MC_FailureCache.tla"
@@ -389,6 +390,8 @@ def run_replay(ctx, path):
                "shape": head.get("shape", "plain"), "cfg": driver_cfg(read_cfg(rep["cfg"])),
                "steps": [json.dumps(x) for x in steps_of_trace(lines)], "trace_cfg": rep["cfg"]}
     driver = rep.get("driver")
+    if driver in ("TestReplay", "TestStorm"):       # the FailEcs tier (checks/x13fe.py)
+        return x13fe.replay_file(ctx, path)
     if driver == "TestZoneFailure":
         return c13_zone.replay_zone(ctx, rep)
     if driver == "TestResolverShed":
@@ -534,3 +537,7 @@ def run(ctx, replay):
     for f in tf + mc:
         f.result()
     c13_zone.conclude(ctx, zfut.result(), zcases, zmc)
+    # the failure cache seen by concurrent clients of several ECS audiences (FailEcs.tla): the /0 opt-out folded into the
+    # shared audience on every path (lookup, record, retry key), the follower re-check under the client's own audience,
+    # one probe per (question, audience) after expiry, request-local endings neither recorded nor served to followers
+    x13fe.run_tier(ctx)
